@@ -432,6 +432,7 @@ impl<'a, T> TooDeeOpsMut<T> for TooDeeViewMut<'a, T> {
     /// ```
     fn swap_rows(&mut self, mut r1: usize, mut r2: usize) {
         if r1 == r2 {
+            assert!(r1 < self.num_rows);
             return;
         }
         if r2 < r1 {
